@@ -175,7 +175,87 @@ PROPS = {
         "trusted_base": TB_COMMON + ["IEEE-754 behaviour of the float primitives used inside to_f64 (BigUint::to_f64, powi, str::parse): to_f64 is judged per sampled input, not modelled"],
         "assumptions": ASSUME_COMMON,
     },
+    "C20": {
+        "rule": "the C20 case set (Context::default() vs the generated constants; default-context sqrt/cbrt/inverse vs explicit Context::default(); sqrt/cbrt/round/division/exp vs the model "
+                "instantiated with the configured precision and mode; small-scope exhaustive division of all numerators and denominators below 1000 (120 when precision > 3 in quick); Display "
+                "around both thresholds and precision formatting around the padding limit vs the character-level model with the configured thresholds) is run under the default build and under "
+                "rebuilt harness binaries: quick = {prec 3, Up, low 1, high 0, pad 0}, {prec 250, Floor, low 9, high 40, pad 1000}, one seed-chosen combination; thorough = every one-factor "
+                "variation of precision {1,2,3,7,16,34,250}, the 6 other modes, low {1,9}, high {0,2,40}, pad {0,5} plus 8 random combinations. Each rebuilt binary reports its configuration "
+                "through the hooks and must match the requested environment.",
+        "trusted_base": TB_COMMON + ["cargo/build.rs rerun-if-env-changed rebuilds the library for each environment (checked: the binary reports its configuration)"],
+        "assumptions": ASSUME_COMMON,
+    },
 }
+
+
+MODES = ["Up", "Down", "Ceiling", "Floor", "HalfUp", "HalfDown", "HalfEven"]
+DEFAULT_CFG = {"prec": 100, "mode": "HalfEven", "low": 5, "high": 15, "pad": 1000}
+
+
+def c20_configs(tier, seed):
+    import random
+    rnd = random.Random(seed)
+    cfgs = [
+        dict(DEFAULT_CFG, prec=3, mode="Up", low=1, high=0, pad=0),
+        dict(DEFAULT_CFG, prec=250, mode="Floor", low=9, high=40, pad=1000),
+        dict(prec=rnd.choice([1, 2, 7, 16, 34]), mode=rnd.choice(MODES), low=rnd.choice([1, 5, 9]),
+             high=rnd.choice([0, 2, 15, 40]), pad=rnd.choice([0, 5, 1000])),
+    ]
+    if tier == "thorough":
+        for p in [1, 2, 3, 7, 16, 34, 250]:
+            cfgs.append(dict(DEFAULT_CFG, prec=p))
+        for m in MODES:
+            if m != DEFAULT_CFG["mode"]:
+                cfgs.append(dict(DEFAULT_CFG, mode=m))
+        for lo in [1, 9]:
+            cfgs.append(dict(DEFAULT_CFG, low=lo))
+        for hi in [0, 2, 40]:
+            cfgs.append(dict(DEFAULT_CFG, high=hi))
+        for pad in [0, 5]:
+            cfgs.append(dict(DEFAULT_CFG, pad=pad))
+        for _ in range(8):
+            cfgs.append(dict(prec=rnd.choice([1, 2, 3, 7, 16, 34, 100, 250]), mode=rnd.choice(MODES), low=rnd.choice([1, 5, 9]),
+                             high=rnd.choice([0, 2, 15, 40]), pad=rnd.choice([0, 5, 1000])))
+    return cfgs
+
+
+def extra_stage(prop, tier, seed, chk, tally):
+    """C20: rebuild the harness under other RUST_BIGDECIMAL_* settings and run the C20 cases again"""
+    import os, subprocess
+    if prop != "C20":
+        return {}, []
+    violations = []
+    built = []
+    tdir = os.path.join(chk.HARNESS, "target-cfg")
+    for cfg in c20_configs(tier, seed):
+        env = dict(os.environ, CARGO_NET_OFFLINE="true",
+                   RUST_BIGDECIMAL_DEFAULT_PRECISION=str(cfg["prec"]),
+                   RUST_BIGDECIMAL_DEFAULT_ROUNDING_MODE=cfg["mode"],
+                   RUST_BIGDECIMAL_FMT_EXPONENTIAL_LOWER_THRESHOLD=str(cfg["low"]),
+                   RUST_BIGDECIMAL_FMT_EXPONENTIAL_UPPER_THRESHOLD=str(cfg["high"]),
+                   RUST_BIGDECIMAL_FMT_MAX_INTEGER_PADDING=str(cfg["pad"]))
+        want = "%d,%s,%d,%d,%d" % (cfg["prec"], cfg["mode"], cfg["low"], cfg["high"], cfg["pad"])
+        with chk.Lock("cargo"):
+            p = subprocess.run(["cargo", "build", "--release", "--offline", "--target-dir", tdir], cwd=chk.HARNESS, env=env,
+                               stdout=subprocess.PIPE, stderr=subprocess.STDOUT, text=True)
+            hbin = os.path.join(tdir, "release", "harness")
+            if p.returncode != 0:
+                violations.append(("configuration", None, "harness does not build with %s: %s" % (want, p.stdout[-300:])))
+                continue
+            # keep a private copy: the next configuration overwrites the binary
+            import shutil
+            mine = os.path.join(tdir, "harness-" + want.replace(",", "_"))
+            shutil.copy(hbin, mine)
+        got = subprocess.run([mine, "config"], stdout=subprocess.PIPE, text=True).stdout.strip()
+        if got != want:
+            violations.append(("configuration", None, "built with %s but the library reports %s" % (want, got)))
+        before = tally.evaluations
+        errs = chk.stage_explore(prop, tier, seed, tally, hbin=mine, corpus=False)
+        for e in errs:
+            violations.append(("configuration", None, "%s: %s" % (want, e)))
+        built.append({"config": want, "reported": got, "evaluations": tally.evaluations - before})
+        os.remove(mine)
+    return {"configurations": built}, violations
 
 
 def _dec_scale(rec, field_index):
